@@ -1045,6 +1045,33 @@ func GenC06(rng *rand.Rand, thorough bool, emit func(*Sx)) {
 						emit(RunConv(f.caseOf("C06", segStream(rng, f.out, f.cuts, (li+si+ri)%4, rawEOF))))
 					}
 				}
+				// ---- DATA, a backend that reads exactly as many octets as the message has (io.ReadFull of a
+				// known size) or one fewer, and accepts: a message within the limit is accepted as if there were none
+				if s >= 2 && s <= N {
+					for _, stop := range []int{s, s - 1} {
+						cfg := DefaultCfg()
+						cfg.MaxBytes = int64(N)
+						cfg.LMTP = lmtp
+						f := newF(cfg)
+						f.hello()
+						f.cmd("MAIL FROM:<s@ok>", 250)
+						f.cmd("RCPT TO:<r@ok>", 250)
+						f.cmd("DATA", 354)
+						body := strings.Repeat("m", s-2) + "\r\n"
+						f.raw(body)
+						f.raw(".\r\n")
+						p := DefaultPlan()
+						p.Sizes = []int{1} // (larger reads would overshoot the stop)
+						p.Stop = int64(stop)
+						f.script.Data = []DataPlan{p}
+						f.expect(250)
+						f.add(L(A("expect-data"), XS(body[:stop]), A("nil")))
+						f.cmd("MAIL FROM:<after@ok>", 250)
+						f.cmd("QUIT", 221)
+						f.add(L(A("must-mail"), XS("after@ok")))
+						emit(RunConv(f.caseOf("C06", segStream(rng, f.out, f.cuts, (li+si+stop)%4, rawEOF))))
+					}
+				}
 				// ---- BDAT: all chunkings into at most 3 chunks for small s, a few for large ----
 				payload := strings.Repeat("b", s)
 				var cks [][]int
